@@ -907,6 +907,11 @@ var ReverseListFunc = function.New(&function.Spec{
 	RefineResult: refineNonNull,
 	Impl: func(args []cty.Value, retType cty.Type) (ret cty.Value, err error) {
 		in, marks := args[0].Unmark()
+		if in.Type().IsSetType() && !in.IsWhollyKnown() {
+			// The members of a set that holds unknown values have no
+			// settled order (nor number) yet, so neither has the result.
+			return cty.UnknownVal(retType).WithMarks(marks), nil
+		}
 		inVals := in.AsValueSlice()
 		outVals := make([]cty.Value, len(inVals))
 
